@@ -12,6 +12,9 @@
 //	drop <k>                                  -> ok        HostMap.DeleteHostInfo of the hostinfo of handshake k
 //	hs <k> <certname> <addrs>                 -> ok        completed handshake number k with a peer whose
 //	                                                       certificate has that name and those overlay addresses
+//	pq <client addr:port> <qtype>:<name>:<oracle>;…  -> as q: dnsServer.parseQuery on a message carrying ALL the
+//	                                          questions (the way the package's tests call it; through
+//	                                          handleDnsRequest miekg's SetReply keeps the first question only)
 //	q <client addr:port> <opcode> <qtype>:<name>:<oracle>;…
 //	     -> rc=<rcode> <answer>;… | rc=<rcode> -
 //	     answer: A:<name>:<addr> | AAAA:<name>:<addr> | TXT:<name>:<k>|self|unknown | OTHER
@@ -136,6 +139,31 @@ func question(r *hlib.Rand, known []string, addrs []string) string {
 	return fmt.Sprintf("%d:%s:%s", qt, hx(name), o)
 }
 
+// a question for a name nobody has, of any type
+func unknownQuestion(r *hlib.Rand) string {
+	name := hlib.Pick(r, "nobody.", "noone.neb.", "host9.", "unknown.", "10.0.0.99.", "x.y.")
+	qt := hlib.Pick(r, qtypes...)
+	o := "x"
+	if a, err := netip.ParseAddr(name[:len(name)-1]); err == nil {
+		o = hlib.AddrHex(a)
+	}
+	return fmt.Sprintf("%d:%s:%s", qt, hx(name), o)
+}
+
+// a question for a (probably) known name with a type it is likely to lack
+func lackingQuestion(r *hlib.Rand, pool []string) string {
+	name := "host1."
+	if len(pool) > 0 {
+		name = mixCase(r, hlib.Pick(r, pool...)) + "."
+	}
+	qt := hlib.Pick(r, mdns.TypeMX, mdns.TypeANY, mdns.TypeSRV, mdns.TypeAAAA, mdns.TypeA, mdns.TypeTXT, mdns.TypeCNAME, 0, 65535)
+	o := "x" // a certificate may be named like an address ("10.0.0.5"): the oracle value must be the real one
+	if a, err := netip.ParseAddr(name[:len(name)-1]); err == nil {
+		o = hlib.AddrHex(a)
+	}
+	return fmt.Sprintf("%d:%s:%s", qt, hx(name), o)
+}
+
 var selfNames = []string{"lh", "LH", "Lighthouse", "host1", "lh2", "Host2", "lighthouse-new"}
 
 func gen(r *hlib.Rand, n int, tier, profile string, emit func(string, ...any)) {
@@ -161,7 +189,11 @@ func gen(r *hlib.Rand, n int, tier, profile string, emit func(string, ...any)) {
 		}
 		query := func(focus []string) {
 			emitted++
+			whole := r.Chance(1, 2) // parseQuery on the whole message (every question counts)
 			nq := hlib.Pick(r, 1, 1, 1, 1, 2, 2, 3, 0)
+			if whole {
+				nq = hlib.Pick(r, 2, 2, 2, 3, 3, 4, 1)
+			}
 			if focus != nil && nq == 0 {
 				nq = 1
 			}
@@ -171,17 +203,42 @@ func gen(r *hlib.Rand, n int, tier, profile string, emit func(string, ...any)) {
 				if focus != nil && (i == 0 || r.Bool()) {
 					pool = focus
 				}
-				qs[i] = question(r, pool, addrs)
+				switch {
+				case whole && r.Chance(1, 3):
+					qs[i] = unknownQuestion(r)
+				case whole && r.Chance(1, 3):
+					qs[i] = lackingQuestion(r, pool)
+				default:
+					qs[i] = question(r, pool, addrs)
+				}
 			}
 			qarg := strings.Join(qs, ";")
 			if nq == 0 {
 				qarg = "-"
 			}
+			cl := netip.AddrPortFrom(netip.MustParseAddr(hlib.Pick(r, clients...)), uint16(r.Range(1, 65535)))
+			if whole {
+				emit("pq %s %s", hlib.AddrPortHex(cl), qarg)
+				// the same questions in other orders: the verdict on "some name is known" must not depend on it
+				if nq >= 2 && r.Chance(2, 3) {
+					emitted++
+					rev := make([]string, nq)
+					for i := range qs {
+						rev[nq-1-i] = qs[i]
+					}
+					emit("pq %s %s", hlib.AddrPortHex(cl), strings.Join(rev, ";"))
+				}
+				if nq >= 3 && r.Bool() {
+					emitted++
+					rot := append(append([]string{}, qs[1:]...), qs[0])
+					emit("pq %s %s", hlib.AddrPortHex(cl), strings.Join(rot, ";"))
+				}
+				return
+			}
 			op := mdns.OpcodeQuery
 			if focus == nil && r.Chance(1, 25) {
 				op = hlib.Pick(r, mdns.OpcodeNotify, mdns.OpcodeUpdate, mdns.OpcodeStatus)
 			}
-			cl := netip.AddrPortFrom(netip.MustParseAddr(hlib.Pick(r, clients...)), uint16(r.Range(1, 65535)))
 			emit("q %s %d %s", hlib.AddrPortHex(cl), op, qarg)
 		}
 		hsCount := 0
@@ -376,6 +433,17 @@ func newExec(t *testing.T) func([]string) string {
 			register(c, a[1])
 			v.AddHostInfo(&cert.CachedCertificate{Certificate: c}, addrs, uint32(1000+k), uint32(2000+k))
 			return "ok"
+		case a[0] == "pq" && len(a) == 3:
+			cl := hlib.ParseAddrPortHex(a[1])
+			m := new(mdns.Msg)
+			if a[2] != "-" {
+				for _, qs := range strings.Split(a[2], ";") {
+					f := strings.Split(qs, ":")
+					m.Question = append(m.Question, mdns.Question{Name: unhexStr(f[1]), Qtype: uint16(hlib.Atoi(f[0])), Qclass: mdns.ClassINET})
+				}
+			}
+			v.ParseQuery(m, &recWriter{remote: net.UDPAddrFromAddrPort(cl)})
+			return showMsg(m, txtOwner)
 		case a[0] == "q" && len(a) == 4:
 			cl := hlib.ParseAddrPortHex(a[1])
 			req := new(mdns.Msg)
@@ -397,33 +465,37 @@ func newExec(t *testing.T) func([]string) string {
 			if !m.Response || m.Id != req.Id || len(m.Ns) != 0 || len(m.Extra) != 0 {
 				return "malformed-reply"
 			}
-			parts := []string{}
-			for _, rr := range m.Answer {
-				switch x := rr.(type) {
-				case *mdns.A:
-					ip, _ := netip.AddrFromSlice(x.A)
-					parts = append(parts, "A:"+hx(x.Hdr.Name)+":"+hlib.AddrHex(ip.Unmap()))
-				case *mdns.AAAA:
-					ip, _ := netip.AddrFromSlice(x.AAAA)
-					parts = append(parts, "AAAA:"+hx(x.Hdr.Name)+":"+hlib.AddrHex(ip))
-				case *mdns.TXT:
-					who, ok := txtOwner[strings.Join(x.Txt, "")]
-					if !ok {
-						who = "unknown"
-					}
-					parts = append(parts, "TXT:"+hx(x.Hdr.Name)+":"+who)
-				default:
-					parts = append(parts, "OTHER")
-				}
-			}
-			ans := "-"
-			if len(parts) > 0 {
-				ans = strings.Join(parts, ";")
-			}
-			return fmt.Sprintf("rc=%d %s", m.Rcode, ans)
+			return showMsg(m, txtOwner)
 		}
 		return "bad-op"
 	}
+}
+
+func showMsg(m *mdns.Msg, txtOwner map[string]string) string {
+	parts := []string{}
+	for _, rr := range m.Answer {
+		switch x := rr.(type) {
+		case *mdns.A:
+			ip, _ := netip.AddrFromSlice(x.A)
+			parts = append(parts, "A:"+hx(x.Hdr.Name)+":"+hlib.AddrHex(ip.Unmap()))
+		case *mdns.AAAA:
+			ip, _ := netip.AddrFromSlice(x.AAAA)
+			parts = append(parts, "AAAA:"+hx(x.Hdr.Name)+":"+hlib.AddrHex(ip))
+		case *mdns.TXT:
+			who, ok := txtOwner[strings.Join(x.Txt, "")]
+			if !ok {
+				who = "unknown"
+			}
+			parts = append(parts, "TXT:"+hx(x.Hdr.Name)+":"+who)
+		default:
+			parts = append(parts, "OTHER")
+		}
+	}
+	ans := "-"
+	if len(parts) > 0 {
+		ans = strings.Join(parts, ";")
+	}
+	return fmt.Sprintf("rc=%d %s", m.Rcode, ans)
 }
 
 func TestEngine(t *testing.T) {
